@@ -612,6 +612,27 @@ def one_case(mon, rng, c, pd, C, performance_metrics, ME):
             bwl = O.log_growth(bratio, dur_d)
             cx.apr("performance_metrics", "Benchmark APR", site, pm[ME.annualized_benchmark_rate], bwl, apr_tol_log(y, bwl, ops_end))
 
+    # ------------------------------------------------------------------ G2. the same series with rows missing (an outage, closed
+    # hours): the span it covers is still last - first + one interval, and that span annualises the return
+    if ok and n >= 6 and rng.random() < 0.35:
+        keep = [0, 1] + sorted(rng.sample(range(2, n - 1), rng.randint(1, max(1, min(n - 4, (n - 3) // 2))))) + [n - 1]
+        gvals = perf_values.iloc[keep]
+        gb = bser.iloc[keep] if bser is not None else None
+        ok2, pm2 = cx.call("performance_metrics", site + "/gaps", performance_metrics, gvals, rf, gb)
+        if ok2:
+            mon.ev(2)
+            mon.hit("performance_metrics/gapped-series")
+            gix = gvals.index
+            span = (gix[-1] - gix[0]) + (gix[1] - gix[0])
+            if pm2[ME.duration] != span:
+                cx.viol("performance_metrics", "Duration", site + "/gaps", f"{pm2[ME.duration]} for rows {keep[:12]} of {n} bars of {interval_s}s (span {span})")
+            dur_g = D(int(span.total_seconds())) / 86400 if float(span.total_seconds()).is_integer() else D(repr(span.total_seconds())) / 86400
+            vfg = O.exact([float(x) for x in raw])
+            ratio_g = O.total_ratio([vfg[0], vfg[-1]])
+            wlg = O.log_growth(ratio_g, dur_g)
+            cx.apr("performance_metrics", "APR", site + "/gaps", pm2[ME.annualized_return], wlg, apr_tol_log(365 / dur_g, wlg, ops_end))
+            cx.close("performance_metrics", "Rate of Return", site + "/gaps", pm2[ME.return_rate], ratio_g - 1, REL * abs(ratio_g - 1) + 20 * U * max(O.D1, ratio_g))
+
     mon.sample(
         {
             "shape": shape, "n": n, "dtype": dtype, "interval_s": interval_s, "values_head": [str(x) for x in raw[:8]],
